@@ -96,3 +96,36 @@ Proof.
     rewrite !get_data_spec. apply layers_get_ext. apply Forall_Forall_True. intro p.
     subst s2. apply set_frame; [exact Wch|]. right. exact Hn.
 Qed.
+
+(* ---- the same for functions -------------------------------------------------------------------------------- *)
+Lemma get_functions_store_ext s1 s2 n c :
+  (forall p, sget s1 p = sget s2 p) -> get_functions s1 c n = get_functions s2 c n.
+Proof.
+  intro H. induction c as [p par _|ms par IH _|l par IH _] using ctx_ind'; cbn [get_functions].
+  - rewrite H. reflexivity.
+  - generalize (@nil fdef) false.
+    induction IH as [|m r Hm _ IHr]; intros acc ex; [reflexivity|].
+    rewrite Hm. destruct (get_functions s2 m n) as [fs e]. apply IHr.
+  - exact IH.
+Qed.
+
+Lemma collect_functions_store_ext s1 s2 n c :
+  (forall p, sget s1 p = sget s2 p) -> collect_functions s1 c n = collect_functions s2 c n.
+Proof.
+  intro H. rewrite !collect_functions_spec. f_equal. apply map_ext. intro c'. apply get_functions_store_ext. exact H.
+Qed.
+
+(* a fresh child offers exactly the overload layers its receiver offers (its own, empty, layer is dropped),
+   and creating it changes what no context offers *)
+Lemma child_transparent_functions s c n :
+  collect_functions (fst (create_child s c)) (snd (create_child s c)) n = collect_functions s c n.
+Proof.
+  cbn [create_child new_plain fst snd collect_functions get_functions].
+  rewrite sget_snoc_empty, (sget_overflow s (length s)) by lia.
+  cbn [plain_functions empty_pstate pfuncs pexcl filter smem].
+  apply collect_functions_store_ext. intro p. apply sget_snoc_empty.
+Qed.
+
+Lemma child_keeps_others_functions s c d n :
+  collect_functions (fst (create_child s c)) d n = collect_functions s d n.
+Proof. apply collect_functions_store_ext. intro p. apply sget_snoc_empty. Qed.
